@@ -38,9 +38,9 @@ Proof.
         -- intros _. exists p. split; [reflexivity | exact Ev].
       * replace (idx <=? 0) with false by (symmetry; apply Z.leb_gt; lia).
         replace (Z.to_nat idx) with (S (Z.to_nat (idx - 1))) by lia. cbn [nth_error].
-        rewrite Es. cbn [bind].
         destruct (IH (p + sz) rest (idx - 1) Er ltac:(lia)) as (t' & v & Hn & Ht & Hk0 & Hk).
-        exists t', v. repeat split; assumption.
+        exists t', v. split; [assumption|]. split; [assumption|]. split; [assumption|].
+        intros Hne. cbn [bind]. exact (Hk Hne).
 Qed.
 
 Lemma itr_go_types m tags : forall p l,
@@ -67,6 +67,14 @@ Proof.
       destruct (arg_size m p t) as [sz| |]; cbn [bind] in H; try discriminate.
       destruct (itr_go m ts (p + sz)) as [rest| |] eqn:Er; cbn [bind] in H; try discriminate.
       inversion H; subst. rewrite zlen_cons, (IH _ _ Er). lia.
+Qed.
+
+Lemma nth_skipn_cons (l : list byte) : forall k c,
+  nth_error l k = Some c -> skipn k l = c :: skipn (S k) l.
+Proof.
+  induction l as [|x l IH]; intros k c H; destruct k; cbn [nth_error skipn] in *; try discriminate.
+  - inversion H. reflexivity.
+  - apply IH. exact H.
 Qed.
 
 (* ---- a buffer seen as a one-segment ring of exactly its own length -------- *)
@@ -101,10 +109,7 @@ Proof.
   intros H. destruct (rd_total m p Hb H) as (c & Hc & _). exists c. split; [exact Hc|].
   rewrite rd_eq in Hc. replace (p <? 0) with false in Hc by (symmetry; apply Z.ltb_ge; lia).
   rewrite !from_eq. replace (Z.to_nat (p + 1)) with (S (Z.to_nat p)) by lia.
-  revert Hc. generalize (Z.to_nat p) as k. clear. intros k. revert m.
-  induction k as [|k IH]; intros m Hc; destruct m as [|x m]; cbn [nth_error skipn] in *; try discriminate.
-  - inversion Hc. reflexivity.
-  - apply IH. exact Hc.
+  apply nth_skipn_cons. destruct (nth_error m (Z.to_nat p)); [inversion Hc; reflexivity | discriminate].
 Qed.
 
 (* a checked scan that ends inside the buffer is the unchecked scan *)
@@ -179,17 +184,35 @@ Proof.
   destruct (IH _ _ H) as (s & ->). eexists; reflexivity.
 Qed.
 
+(* no value-carrying tag left: the iterator only yields constants *)
+Lemma itr_go_consts ts : nreserved ts = 0 -> forall q,
+  exists l, itr_go m ts q = Ok l /\ Forall payload_inside (map snd l).
+Proof.
+  induction ts as [|t' ts' IHt]; intros E q.
+  - exists []. split; [reflexivity | constructor].
+  - cbn [nreserved] in E. pose proof (nreserved_nonneg ts'). unfold has_reserved in E.
+    destruct (kind_of t') eqn:K'; try lia.
+    destruct (IHt ltac:(lia) q) as (l & Hl & Hins).
+    cbn [itr_go]. destruct (is_bracket t'); [exists l; split; assumption|].
+    unfold extract_arg, arg_size. rewrite K'. cbn [bind].
+    replace (q + 0) with q by lia. rewrite Hl. cbn [bind].
+    eexists. split; [reflexivity|]. cbn [map snd]. constructor; [|exact Hins].
+    destruct (t' =? 84); [exact I|]. destruct (t' =? 70); exact I.
+Qed.
+
 (* the accepted argument walk: every position stays <= n, and the unchecked
    iterator succeeds over the same tags with all payloads inside *)
 Lemma ring_args_safe fuel aligned tags : forall pos fin,
   0 <= pos -> (pos - aligned) mod 4 = 0 -> pos + 8 * zlen tags + 16 < W32 - n ->
+  2 * n + 8 * zlen tags + 40 < W32 ->
   ring_args true fuel r aligned (nreserved tags) tags pos = Ok fin -> fin <= n ->
   pos <= n /\ exists l, itr_go m tags pos = Ok l /\ Forall payload_inside (map snd l).
 Proof.
   pose proof (zlen_nonneg m) as Hn0. fold n in Hn0.
-  induction tags as [|t ts IH]; intros pos fin Hp Hal Hbound H Hfin.
+  assert (Hn27 : n < 134217728) by (unfold n; exact Hn).
+  induction tags as [|t ts IH]; intros pos fin Hp Hal Hbound Hglob H Hfin.
   - cbn in H. inversion H; subst. split; [lia|]. exists []. split; [reflexivity | constructor].
-  - pose proof (nreserved_nonneg ts) as Hnn. rewrite zlen_cons in Hbound.
+  - pose proof (nreserved_nonneg ts) as Hnn. rewrite zlen_cons in Hbound, Hglob.
     pose proof (zlen_nonneg ts) as Hts.
     cbn [ring_args nreserved] in H. cbn [itr_go]. unfold has_reserved in H.
     assert (HB : is_bracket t = true -> kind_of t = K0) by apply bracket_K0.
@@ -198,7 +221,7 @@ Proof.
       replace (1 + nreserved ts =? 0) with false in H by (symmetry; apply Z.eqb_neq; lia).
       replace (1 + nreserved ts - 1) with (nreserved ts) in H by lia.
       rewrite w32_small in H by (unfold W32 in *; lia).
-      destruct (IH (pos + 4) fin ltac:(lia) ltac:(lia) ltac:(lia) H Hfin) as (Hle & l & Hl & Hins).
+      destruct (IH (pos + 4) fin ltac:(lia) ltac:(lia) ltac:(lia) ltac:(lia) H Hfin) as (Hle & l & Hl & Hins).
       split; [lia|].
       destruct (is_bracket t) eqn:B; [specialize (HB eq_refl); congruence|].
       unfold extract_arg, arg_size. rewrite K.
@@ -209,7 +232,7 @@ Proof.
       replace (1 + nreserved ts =? 0) with false in H by (symmetry; apply Z.eqb_neq; lia).
       replace (1 + nreserved ts - 1) with (nreserved ts) in H by lia.
       rewrite w32_small in H by (unfold W32 in *; lia).
-      destruct (IH (pos + 8) fin ltac:(lia) ltac:(lia) ltac:(lia) H Hfin) as (Hle & l & Hl & Hins).
+      destruct (IH (pos + 8) fin ltac:(lia) ltac:(lia) ltac:(lia) ltac:(lia) H Hfin) as (Hle & l & Hl & Hins).
       split; [lia|].
       destruct (is_bracket t) eqn:B; [specialize (HB eq_refl); congruence|].
       unfold extract_arg, arg_size, rd64. rewrite K.
@@ -229,10 +252,10 @@ Proof.
         rewrite (deref_out pos ltac:(lia)) in Es. cbn [bind] in Es.
         change (0 =? 0) with true in Es. cbn iota in Es. inversion Es; subst e.
         rewrite w32_small in H by (unfold W32 in *; lia).
-        destruct (IH _ fin ltac:(lia) ltac:(lia) ltac:(lia) H Hfin) as (Hle & _). lia. }
+        destruct (IH (pos + (4 - (pos - aligned) mod 4)) fin ltac:(lia) ltac:(lia) ltac:(lia) ltac:(lia) H Hfin) as (Hle & _). lia. }
       destruct (scan0_ge fuel pos e Hp Hposn Es) as (Hpe & Hen).
       rewrite w32_small in H by (unfold W32 in *; lia).
-      destruct (IH _ fin ltac:(lia) ltac:(lia) ltac:(lia) H Hfin) as (Hle & l & Hl & Hins).
+      destruct (IH (e + (4 - (e - aligned) mod 4)) fin ltac:(lia) ltac:(lia) ltac:(lia) ltac:(lia) H Hfin) as (Hle & l & Hl & Hins).
       assert (Helt : e < n) by lia.
       destruct (scan0_strz fuel pos e Hp Hposn Es Helt) as (Hstrz & _).
       split; [assumption|].
@@ -266,13 +289,13 @@ Proof.
       { unfold p2. destruct (i mod 4 =? 0) eqn:E2; [apply Z.eqb_eq in E2 | apply Z.eqb_neq in E2]; lia. }
       destruct (IH p2 fin ltac:(lia) ltac:(unfold p2; destruct (i mod 4 =? 0) eqn:E2;
                                           [apply Z.eqb_eq in E2 | apply Z.eqb_neq in E2]; lia)
-                  ltac:(lia) H Hfin) as (Hle & l & Hl & Hins).
+                  ltac:(lia) ltac:(lia) H Hfin) as (Hle & l & Hl & Hins).
       split; [lia|].
       destruct (is_bracket t) eqn:B; [specialize (HB eq_refl); congruence|].
       unfold extract_arg, arg_size. rewrite K.
       rewrite (rd32_deref32 pos Hp ltac:(lia)) in Hi. rewrite Hi. cbn [bind].
       replace (pos + (4 + (if i mod 4 =? 0 then i else (i + (4 - i mod 4)) mod 4294967296))) with p2.
-      2:{ unfold p2. destruct (i mod 4 =? 0); [lia|]. rewrite Z.mod_small by lia. lia. }
+      2:{ unfold p2. destruct (i mod 4 =? 0); [lia|]. rewrite (Z.mod_small (i + (4 - i mod 4))) by lia. lia. }
       rewrite Hl. cbn [bind]. eexists. split; [reflexivity|].
       cbn [map snd]. constructor; [|exact Hins]. cbn. lia.
     + (* K0 *)
@@ -280,24 +303,181 @@ Proof.
       assert (Hrest : pos <= n /\ exists l, itr_go m ts pos = Ok l /\ Forall payload_inside (map snd l)).
       { destruct (nreserved ts =? 0) eqn:E.
         - inversion H; subst. split; [lia|].
-          (* no value-carrying tag is left: the iterator only yields constants *)
-          apply Z.eqb_eq in E. clear - E. revert E. generalize pos as q.
-          induction ts as [|t' ts' IHt]; intros q E.
-          + exists []. split; [reflexivity | constructor].
-          + cbn [nreserved] in E. pose proof (nreserved_nonneg ts'). unfold has_reserved in E.
-            destruct (kind_of t') eqn:K'; try lia.
-            destruct (IHt q ltac:(lia)) as (l & Hl & Hins).
-            cbn [itr_go]. destruct (is_bracket t'); [exists l; split; assumption|].
-            unfold extract_arg, arg_size. rewrite K'. cbn [bind].
-            replace (q + 0) with q by lia. rewrite Hl. cbn [bind].
-            eexists. split; [reflexivity|]. cbn [map snd]. constructor; [|exact Hins].
-            destruct (t' =? 84); [exact I|]. destruct (t' =? 70); exact I.
-        - apply IH; [assumption | assumption | lia | assumption | assumption]. }
+          apply Z.eqb_eq in E. apply itr_go_consts. exact E.
+        - apply (IH pos fin); [assumption | assumption | lia | lia | assumption | assumption]. }
       destruct Hrest as (Hle & l & Hl & Hins). split; [assumption|].
       destruct (is_bracket t); [exists l; split; assumption|].
       unfold extract_arg, arg_size. rewrite K. cbn [bind].
       replace (pos + 0) with pos by lia. rewrite Hl. cbn [bind].
       eexists. split; [reflexivity|]. cbn [map snd]. constructor; [|exact Hins].
       destruct (t =? 84); [exact I|]. destruct (t =? 70); exact I.
+Qed.
+
+Lemma read_tags_len : forall fuel p ts,
+  0 <= p -> p <= n -> read_tags fuel r p = Ok ts -> zlen ts <= n - p.
+Proof.
+  induction fuel as [|fuel IH]; intros p ts Hp Hpn H; [discriminate|].
+  cbn [read_tags] in H. destruct (Z_lt_le_dec p n) as [Hlt|Hge].
+  - destruct (deref_total r rk p Hp) as (c & Hc & _). rewrite Hc in H. cbn [bind] in H.
+    destruct (c =? 0); [inversion H; subst; unfold zlen; cbn [length]; lia|].
+    assert (Hn27 : n < 134217728) by (unfold n; exact Hn).
+    rewrite w32_small in H by (unfold W32 in *; lia).
+    destruct (read_tags fuel r (p + 1)) as [t'| |] eqn:Er; cbn [bind] in H; try discriminate.
+    inversion H; subst. rewrite zlen_cons. specialize (IH (p + 1) t' ltac:(lia) ltac:(lia) Er). lia.
+  - rewrite (deref_out p Hge) in H. cbn [bind] in H. change (0 =? 0) with true in H. cbn iota in H.
+    inversion H; subst. unfold zlen. cbn [length]. lia.
+Qed.
+
+(* the NUL word between the address and the ',' : inversion of the four tests *)
+Lemma nulword_inv {B} p0 (K : Z -> res B) R :
+  0 <= p0 -> p0 + 4 < W32 ->
+  (c1 <- deref r (w32 (p0 + 1)) ;;
+   pos <- (if negb (c1 =? 0) then Ok (w32 (p0 + 1)) else
+    c2 <- deref r (w32 (p0 + 2)) ;;
+    if negb (c2 =? 0) then Ok (w32 (p0 + 2)) else
+    c3 <- deref r (w32 (p0 + 3)) ;;
+    if negb (c3 =? 0) then Ok (w32 (p0 + 3)) else
+    c4 <- deref r (w32 (p0 + 4)) ;; Ok (w32 (p0 + 4))) ;;
+   K pos) = Ok R ->
+  exists pos, K pos = Ok R /\ p0 < pos <= p0 + 4 /\
+              forall j, p0 < j < pos -> deref r j = Ok 0.
+Proof.
+  intros Hp Hw H. rewrite !w32_small in H by (unfold W32 in *; lia).
+  destruct (deref r (p0 + 1)) as [c1| |] eqn:E1; cbn [bind] in H; try discriminate.
+  destruct (c1 =? 0) eqn:Z1; cbn [negb] in H.
+  2:{ cbn [bind] in H. exists (p0 + 1). split; [exact H|]. split; [lia|]. intros j Hj. lia. }
+  apply Z.eqb_eq in Z1. subst c1.
+  destruct (deref r (p0 + 2)) as [c2| |] eqn:E2; cbn [bind] in H; try discriminate.
+  destruct (c2 =? 0) eqn:Z2; cbn [negb] in H.
+  2:{ cbn [bind] in H. exists (p0 + 2). split; [exact H|]. split; [lia|]. intros j Hj.
+      assert (j = p0 + 1) by lia. subst j. exact E1. }
+  apply Z.eqb_eq in Z2. subst c2.
+  destruct (deref r (p0 + 3)) as [c3| |] eqn:E3; cbn [bind] in H; try discriminate.
+  destruct (c3 =? 0) eqn:Z3; cbn [negb] in H.
+  2:{ cbn [bind] in H. exists (p0 + 3). split; [exact H|]. split; [lia|]. intros j Hj.
+      assert (j = p0 + 1 \/ j = p0 + 2) as [->| ->] by lia; assumption. }
+  apply Z.eqb_eq in Z3. subst c3.
+  destruct (deref r (p0 + 4)) as [c4| |] eqn:E4; cbn [bind] in H; try discriminate.
+  exists (p0 + 4). split; [exact H|]. split; [lia|]. intros j Hj.
+  assert (j = p0 + 1 \/ j = p0 + 2 \/ j = p0 + 3) as [->|[->| ->]] by lia; assumption.
+Qed.
+
+Lemma findnz_zeros_rd : forall (k : nat) p q,
+  0 <= p -> p + Z.of_nat k = q -> q < n ->
+  (forall j, p <= j < q -> rd m j = Ok 0) ->
+  (exists c, rd m q = Ok c /\ c <> 0) ->
+  findnz (from m p) p = Ok q.
+Proof.
+  induction k as [|k IH]; intros p q Hp Hq Hqn Hz (c & Hc & Hc0).
+  - assert (Hqp : q = p) by lia. clear Hq. subst q.
+    destruct (from_cons_rd p ltac:(lia)) as (c' & Hc' & Hf). rewrite Hc in Hc'. inversion Hc'; subst c'.
+    rewrite Hf. cbn [findnz]. rewrite (eqb0 c Hc0). reflexivity.
+  - destruct (from_cons_rd p ltac:(lia)) as (c' & Hc' & Hf).
+    rewrite (Hz p ltac:(lia)) in Hc'. inversion Hc'; subst c'.
+    rewrite Hf. cbn [findnz]. change (0 =? 0) with true. cbn iota.
+    apply (IH (p + 1) q); [lia | lia | assumption | intros j Hj; apply Hz; lia | exists c; auto].
+Qed.
+
+Lemma cstr_len : forall l s, cstr l = Ok s -> (length s < length l)%nat.
+Proof.
+  induction l as [|c l IH]; intros s H; cbn [cstr] in H; [discriminate|].
+  destruct (c =? 0); [inversion H; subst; cbn; lia|].
+  destruct (cstr l) as [s'| |] eqn:E; cbn [bind] in H; try discriminate.
+  inversion H; subst. cbn [length]. specialize (IH s' eq_refl). lia.
+Qed.
+
+Theorem valid_accessors_safe :
+  valid_message_p m n = Ok true ->
+  exists s tags l,
+    arg_string m = Ok s /\ cstr_at m s = Ok tags /\
+    narguments m = Ok (count_nonbracket tags) /\
+    itr_all m = Ok l /\ zlen l = count_nonbracket tags /\
+    map fst l = filter (fun t => negb (is_bracket t)) tags /\
+    Forall payload_inside (map snd l) /\
+    forall idx, 0 <= idx < count_nonbracket tags ->
+      exists t v, nth_error l (Z.to_nat idx) = Some (t, v) /\
+                  type_at m idx = Ok t /\ argument m idx = Ok v.
+Proof.
+  intros H.
+  pose proof (zlen_nonneg m) as Hn0. fold n in Hn0.
+  assert (Hn27 : n < 134217728) by (unfold n; exact Hn).
+  unfold valid_message_p, valid_message_gen in H. cbn [andb] in H.
+  destruct (n =? 0) eqn:En0; [discriminate|]. apply Z.eqb_neq in En0.
+  destruct (rd m 0) as [c0| |] eqn:Ec0; cbn [bind] in H; try discriminate.
+  destruct (c0 =? 47) eqn:E47; cbn [negb] in H; [|discriminate]. apply Z.eqb_eq in E47. subst c0.
+  destruct (zlen m <? n); [discriminate|].
+  destruct (path_scan m 0 n) as [o1|]; [|discriminate].
+  destruct (4 <? comma_scan (from m o1) o1 n - o1); [discriminate|].
+  destruct (negb (comma_scan (from m o1) o1 n mod 4 =? 0)); [discriminate|].
+  destruct (message_length m n) as [L| |] eqn:EL; cbn [bind] in H; try discriminate.
+  assert (HLn : L = n) by (inversion H as [HH]; apply Z.eqb_eq in HH; exact HH). subst L. clear H.
+  unfold message_length in EL. change {| d0 := m; n0 := n; d1 := []; n1 := 0 |} with r in EL.
+  unfold message_ring_length, message_ring_length_gen in EL.
+  (* not the bundle magic: the first byte is '/' *)
+  cbn [is_magic bundle_magic] in EL. rewrite (deref_in 0 ltac:(lia)), Ec0 in EL. cbn [bind] in EL.
+  change (47 =? 35) with false in EL. cbn iota in EL.
+  set (fuel := fuel_of r) in *.
+  destruct (scan0 fuel r 0) as [p0| |] eqn:Ep0; cbn [bind] in EL; try discriminate.
+  destruct (scan0_ge fuel 0 p0 ltac:(lia) ltac:(lia) Ep0) as (Hp0a & Hp0b).
+  destruct (nulword_inv p0 _ n Hp0a ltac:(unfold W32; lia) EL) as (pos & EL' & Hpos & Hzeros).
+  clear EL. rename EL' into EL.
+  destruct (deref r pos) as [c| |] eqn:Ec; cbn [bind] in EL; try discriminate.
+  destruct (c =? 44) eqn:E44; cbn [negb] in EL; [|inversion EL; lia]. apply Z.eqb_eq in E44. subst c.
+  assert (Hposn : pos < n).
+  { destruct (Z_lt_le_dec pos n) as [Hlt|Hge]; [assumption|]. rewrite (deref_out pos Hge) in Ec. discriminate. }
+  assert (Hp0n : p0 < n) by lia.
+  rewrite (w32_small (pos + 1)) in EL by (unfold W32; lia).
+  destruct (read_tags fuel r (pos + 1)) as [tags| |] eqn:Et; cbn [bind] in EL; try discriminate.
+  destruct (scan0 fuel r (pos + 1)) as [e| |] eqn:Ee; cbn [bind] in EL; try discriminate.
+  destruct (scan0_ge fuel (pos + 1) e ltac:(lia) ltac:(lia) Ee) as (Hea & Heb).
+  pose proof (read_tags_len fuel (pos + 1) tags ltac:(lia) ltac:(lia) Et) as Htl.
+  pose proof (zlen_nonneg tags) as Htl0.
+  rewrite (w32_small (e + (4 - (e - pos) mod 4))) in EL by (unfold W32; lia).
+  destruct (ring_args true fuel r pos (nreserved tags) tags (e + (4 - (e - pos) mod 4))) as [fin| |] eqn:Ef;
+    cbn [bind] in EL; try discriminate.
+  rewrite r_total in EL.
+  destruct (fin <=? n) eqn:Efn; [|inversion EL; lia]. apply Z.leb_le in Efn.
+  destruct (ring_args_safe fuel pos tags (e + (4 - (e - pos) mod 4)) fin ltac:(lia) ltac:(lia)
+              ltac:(unfold W32; lia) ltac:(unfold W32; lia) Ef Efn) as (Hstart & l & Hl & Hins).
+  assert (Helt : e < n) by lia.
+  (* the unchecked accessors see the same layout *)
+  destruct (scan0_strz fuel 0 p0 ltac:(lia) ltac:(lia) Ep0 Hp0n) as (Hstrz0 & _).
+  assert (Hstrz1 : strz m 1 = Ok p0).
+  { unfold strz in *. change (0 <? 0) with false in Hstrz0. change (1 <? 0) with false. cbn iota in *.
+    destruct (from_cons_rd 0 ltac:(lia)) as (c' & Hc' & Hf). rewrite Ec0 in Hc'. inversion Hc'; subst c'.
+    rewrite from_0 in Hf. rewrite from_0, Hf in Hstrz0. cbn [find0] in Hstrz0.
+    change (47 =? 0) with false in Hstrz0. cbn iota in Hstrz0. exact Hstrz0. }
+  assert (Hargstr : arg_string m = Ok (pos + 1)).
+  { unfold arg_string. rewrite Hstrz1. cbn [bind].
+    rewrite (findnz_zeros_rd (Z.to_nat (pos - (p0 + 1))) (p0 + 1) pos ltac:(lia) ltac:(lia) Hposn).
+    - reflexivity.
+    - intros j Hj. rewrite <- (deref_in j ltac:(lia)). apply Hzeros. lia.
+    - exists 44. split; [rewrite <- (deref_in pos ltac:(lia)); exact Ec | discriminate]. }
+  pose proof (read_tags_cstr fuel (pos + 1) tags e ltac:(lia) ltac:(lia) Et Ee Helt) as Htags.
+  destruct (scan0_strz fuel (pos + 1) e ltac:(lia) ltac:(lia) Ee Helt) as (Hstrze & _).
+  assert (Hstart' : arg_start m = Ok (e + (4 - (e - pos) mod 4))).
+  { unfold arg_start. rewrite Hargstr. cbn [bind]. rewrite Hstrze. cbn [bind].
+    replace (pos + 1 - 1) with pos by lia. reflexivity. }
+  assert (Hitr : itr_all m = Ok l).
+  { unfold itr_all. rewrite Hargstr. cbn [bind]. rewrite Htags. cbn [bind]. rewrite Hstart'. cbn [bind]. exact Hl. }
+  exists (pos + 1), tags, l.
+  split; [exact Hargstr|]. split; [exact Htags|].
+  split; [unfold narguments; rewrite Hargstr; cbn [bind]; rewrite Htags; reflexivity|].
+  split; [exact Hitr|]. split; [exact (itr_go_length _ _ _ _ Hl)|].
+  split; [exact (itr_go_types _ _ _ _ Hl)|]. split; [exact Hins|].
+  intros idx Hidx. rewrite <- (itr_go_length _ _ _ _ Hl) in Hidx.
+  destruct (itr_go_index m tags _ l idx Hl Hidx) as (t & v & Hnth & Hty & Hk0 & Hk).
+  exists t, v. split; [exact Hnth|].
+  assert (Htype : type_at m idx = Ok t).
+  { unfold type_at. rewrite Hargstr. cbn [bind]. rewrite Htags. cbn [bind]. rewrite Hty. reflexivity. }
+  split; [exact Htype|].
+  unfold argument, arg_off. rewrite Htype. cbn [bind]. unfold has_reserved.
+  destruct (kind_of t) eqn:K.
+  all: try (change (1 =? 0) with false; cbn iota;
+            rewrite Hargstr; cbn [bind]; rewrite Htags; cbn [bind]; rewrite Hstart'; cbn [bind];
+            rewrite arg_off_go_skip;
+            destruct (Hk ltac:(congruence)) as (o & -> & He); cbn [bind]; exact He).
+  change (0 =? 0) with true. cbn iota. cbn [bind].
+  rewrite (Hk0 eq_refl). unfold extract_arg. rewrite K. reflexivity.
 Qed.
 End Buffer.
